@@ -57,5 +57,5 @@ PROBES = [
     "two_tasks_in_flight_in_threads", "switch_on_hot_line_of_mutator_function", "switch_inside_loss_or_algo_configuration_or_optimize", "switch_inside_composite_system_table_code",
     "batch_with_2plus_tasks_sharing_objects", "worker_reused_with_dirty_global_rng", "backwards_clock_inside_timed_section",
     "H7_verdict_ok", "H7_verdict_ng", "H7_undecided", "H5_decisive", "H5_trivial",
-    "two_test_settings_in_one_call", "task_failure_propagated", "crash_survivor_reestimated", "crash_survivor_unreadable", "crash_full_reestimate_returned", "crash_full_reestimate_raised",
+    "attribute_assigned_by_two_threads", "switch_after_conflicting_attribute_write", "switch_at_disk_io", "two_test_settings_in_one_call", "task_failure_propagated", "crash_survivor_reestimated", "crash_survivor_unreadable", "crash_full_reestimate_returned", "crash_full_reestimate_raised",
 ]
